@@ -106,6 +106,7 @@ var pfOrder = []struct{ key, lean string }{
 	{"untilByte/func0", "parsUntilByte"}, {"untilFilter/func0", "parsUntilFilter"},
 	{"convertInt", "parsConvertInt"}, {"Int", "parsInt"},
 	{"Parser.Map/func0", "parsMap"}, {"Dry/func0", "parsDry"}, {"Maybe/func0", "parsMaybe"}, {"Any/func0", "parsAny"},
+	{"Seq/func0", "parsSeq"}, {"Child/func0", "parsChild"}, // gparsseq.go; behind them: parsMapP, parsParserChild, parsExact
 }
 
 // the read loop of State.Request in the normal form of the facts (renaming-invariant)
@@ -342,6 +343,9 @@ func (c *pfCtx) asProp(v pfVal, n ast.Node) string {
 }
 
 func (c *pfCtx) expr(x ast.Expr) pfVal {
+	if v, ok := c.seqExpr(x); ok { // gparsseq.go
+		return v
+	}
 	switch n := x.(type) {
 	case *ast.ParenExpr:
 		v := c.expr(n.X)
@@ -668,6 +672,9 @@ func (c *pfCtx) assignPath(n ast.Node, root string, fields []string, value strin
 
 // call translates a call; the values are its Go results
 func (c *pfCtx) call(n *ast.CallExpr) []pfVal {
+	if vs, ok := c.seqCall(n); ok { // gparsseq.go
+		return vs
+	}
 	ft := nodeText(n.Fun)
 	// conversions and built-ins
 	switch ft {
@@ -1115,6 +1122,9 @@ func (c *pfCtx) stmts(list []ast.Stmt, k func(c *pfCtx) string) string {
 
 // assign: `:=`, `=` (also in parallel, also from one call with several results)
 func (c *pfCtx) assign(n *ast.AssignStmt) {
+	if c.seqAssign(n) { // gparsseq.go
+		return
+	}
 	if n.Tok != token.DEFINE && n.Tok != token.ASSIGN {
 		c.refuse(n, "assignment operator %s", n.Tok)
 	}
@@ -1298,6 +1308,7 @@ func (c *pfCtx) assignedIn(nodes []ast.Node) map[string]bool {
 			case *ast.CallExpr:
 				// a pointer variable handed to a function or used as a receiver
 				for _, a := range m.Args {
+					c.seqAssigned(a, out) // gparsseq.go
 					if id, ok := a.(*ast.Ident); ok {
 						if v, isVar := c.vars[id.Name]; isVar && (v.typ == "State" || v.typ == "stack" || v.typ == "Result") {
 							out[id.Name] = true
@@ -1394,6 +1405,9 @@ func (c *pfCtx) forStmt(n *ast.ForStmt, rest []ast.Stmt, k func(c *pfCtx) string
 
 // rangeStmt: `for _, b := range p { assignments }` as a fold
 func (c *pfCtx) rangeStmt(n *ast.RangeStmt, rest []ast.Stmt, k func(c *pfCtx) string) string {
+	if s, ok := c.seqRange(n, rest, k); ok { // gparsseq.go
+		return s
+	}
 	if n.Tok != token.DEFINE || identName(n.Key) != "_" || identName(n.Value) == "" {
 		c.refuse(n, "a range statement that is not `for _, x := range p`")
 	}
@@ -1848,6 +1862,7 @@ func genParsFns(repo string) (text string, err error) {
 		f := g.loadFunc(o.key, o.lean)
 		order = append(order, f)
 	}
+	order = append(order, g.loadMapP()) // gparsseq.go
 	// State.Request: the read loop is the parameter env.fill
 	for _, f := range order {
 		if f.key != "State.Request" {
@@ -1884,7 +1899,7 @@ func genParsFns(repo string) (text string, err error) {
 	}
 	for _, f := range order {
 		f.partial = pfSyntacticPartial(f)
-		f.env = pfUsesEnv(f)
+		f.env = pfUsesEnv(f) || g.seqUsesEnv(f)
 		f.fuel = pfHasLoop(f)
 		for _, p := range f.params {
 			switch p.typ {
@@ -1892,7 +1907,7 @@ func genParsFns(repo string) (text string, err error) {
 				f.generic = true
 			case "parser", "parsers":
 				f.generic, f.partial = true, true // a parser that is called can panic
-			case "mapfn":
+			case "mapfn", "mapfnP":
 				f.generic = true
 			}
 		}
@@ -1927,6 +1942,9 @@ func genParsFns(repo string) (text string, err error) {
 	}
 	for _, f := range order {
 		g.translate(f)
+	}
+	for _, o := range pfCompositions { // gparsseq.go
+		g.compose(o.key, o.lean)
 	}
 
 	b := strings.Builder{}
@@ -1978,14 +1996,15 @@ def goSet {α : Type} (p : List α) (i : Int) (x : α) : Option (List α) :=
   if 0 ≤ i ∧ i < (p.length : Int) then some (p.set i.toNat x) else none
 
 /-- what a ` + "`*pars.Result`" + ` holds: ` + "`SetToken(p)`" + ` / ` + "`SetValue(v)`" + ` set one field and clear the others (result.go, pinned by the
-facts ` + "`pars_Result_SetToken`" + ` / ` + "`pars_Result_SetValue`" + `) -/
+facts ` + "`pars_Result_SetToken`" + ` / ` + "`pars_Result_SetValue`" + `)` + parsPreludeResultDoc + ` -/
 inductive ResultV where
   | unset
   | token (p : List UInt8)
   | int (n : Int)
   | str (s : List UInt8)
-  deriving Repr, DecidableEq, Inhabited
-
+  | children (c : List ResultV)
+  deriving Repr, Inhabited
+` + parsPreludeChildren + `
 /-- how one round of a ` + "`for`" + ` loop ends: ` + "`.next s`" + ` the next round (also ` + "`continue`" + `), ` + "`.done s`" + ` the condition was false (also
 ` + "`break`" + `), ` + "`.ret r`" + ` the function returned ` + "`r`" + ` -/
 inductive Flow (σ R : Type) where
@@ -2014,7 +2033,7 @@ def rangeLoop {α σ R : Type} (body : α → σ → Option (Flow σ R)) (exit :
     | some (.next s') => rangeLoop body exit xs s'
     | some (.done s') => exit s'
     | some (.ret r) => some r
-
+` + parsPreludeRangeIdx + `
 end Gts.Gen.GoPars
 `
 
